@@ -36,7 +36,7 @@ class C03(Check):
     rule = ("experiment = generated project (sources in LF/CRLF/no-final-newline/BOM/non-ASCII/tabs layouts, a labelled class with "
             "exotic separators - form feed, VT, NEL, U+2028, lone CR -, txt/html/xml files, dependency manifests of the four kinds) x "
             "codemod sequence (1-6, biased to sequences touching the same file/line/manifest, incl. plugin regex/XML pipelines and "
-            "dependency-adding codemods) in a real run with 1-8 workers; oracle per write event: patch(changeset.diff, bytes before "
+            "dependency-adding codemods) in a real run with 1-8 workers, optionally with a manifest that cannot be opened for writing; oracle per write event: patch(changeset.diff, bytes before "
             "that write) == bytes written up to one final line terminator; untouched <=> no changeset; non-trivial = at least one "
             "changeset was checked against a write event; distinct = by experiment digest")
     assumptions = [
@@ -65,6 +65,10 @@ class C03(Check):
         for ex in ("ff", "vt-in-str", "u2028-in-str", "nel-in-str", "ff-in-str", "cr-in-comment"):
             exps.append(dict(base, kind="fixed:exotic:" + ex, include=["pixee:python/remove-unnecessary-f-str"],
                              world_spec={"files": [{"path": "pkg/a.py", "snippets": [fstr], "layout": {"exotic": ex}}]}))
+        for mname, fname in (("req-plain", "requirements.txt"), ("pyproject-project-deps", "pyproject.toml"), ("setuppy-multi", "setup.py"),
+                             ("setupcfg-multiline", "setup.cfg")):
+            exps.append(dict(base, kind="fixed:unwritable:" + mname, include=["pixee:python/url-sandbox"], unwritable=[fname],
+                             world_spec={"files": [{"path": "pkg/a.py", "snippets": [sec], "layout": {}}, {"path": fname, "manifest": names[mname]}]}))
         exps.append(dict(base, kind="fixed:eol-cr", include=["pixee:python/remove-unnecessary-f-str"],
                          world_spec={"files": [{"path": "pkg/a.py", "snippets": [fstr], "layout": {"eol": "cr"}}]}))
         return exps
@@ -87,13 +91,18 @@ class C03(Check):
         exp["sched"] = G.rand_sched(rng, len(exp["world_spec"]["files"]))
         exp["workers"] = rng.choice([None, 1, 2, 4, 8])
         exp["enum_seed"] = rng.choice([None, rng.randrange(100)])
+        ms = [f["path"] for f in exp["world_spec"]["files"] if "manifest" in f]
+        if ms and rng.random() < 0.3:
+            # a manifest that cannot be opened for writing: whatever the run reports for it must still match the disk
+            exp["unwritable"] = [rng.choice(ms)] if rng.random() < 0.7 else ms
         return exp
 
     def execute(self, exp, ctx):
         world, meta = W.build_world(exp["world_spec"])
         argv, results = G.general_argv(exp, meta, workers=exp.get("workers"))
+        plan = [{"op": "open-write", "path": "<T>/" + p, "kind": "open-eacces", "nth": 0} for p in exp.get("unwritable", [])]
         o = ctx.run({"name": "real", "world": dict(world, results=results), "argv": argv, "hashseed": 0, "sched": exp["sched"],
-                     "enum_seed": exp.get("enum_seed"), "plugins": exp.get("plugins", False)})
+                     "enum_seed": exp.get("enum_seed"), "plugins": exp.get("plugins", False), "faults": plan})
         return {"run": o, "orig": world["files"]}
 
     def oracle(self, exp, outcomes):
